@@ -104,6 +104,19 @@ def all_cfgs() -> Dict[str, Dict[str, Any]]:
             "rejected": {"on": {"BACK": [{"target": "idle", "guard": "isUrgent"}, {"target": "fast"}]}},
         },
     }
+    # every machine-level (root) property at once: the root State's on, always, entry and exit are merged into one config
+    # by independent branches - none may overwrite another (on[""] IS the root's always)
+    out["rootmix"] = {
+        "id": "rm", "initial": "filling", "entry": ["f"], "exit": ["p1"],
+        "on": {"ABORT": ".aborted", "PING": {"actions": ["p2"]}},
+        "always": [{"target": ".full", "guard": {"type": "stateIn", "params": {"state": "#rm.armed"}}, "actions": ["f"]}],
+        "states": {
+            "filling": {"on": {"ARM": "armed"}},
+            "armed": {},
+            "full": {"on": {"BACK": "filling"}},
+            "aborted": {"on": {"BACK": "filling"}},
+        },
+    }
     return out
 
 
